@@ -158,7 +158,11 @@ def replay_obligation(prop, o, plan):
             reg = _registry()
             info["function"] = contract.qualname
             info["factory"] = list(map(repr, fac))
-            for cand in [o.inputs or {}] + [{}]:
+            cands = [o.inputs or {}] + [{}]
+            for pn, kind in contract.params.items():
+                for v in getattr(kind, "native_candidates", []):
+                    cands.append({**(o.inputs or {}), pn: v})
+            for cand in cands:
                 try:
                     vio, observed = run_contract_natively(reg, contract, dict(cand))
                 except Exception as e:  # noqa
